@@ -274,25 +274,6 @@ def snapshot(x, memo=None):
     return ['i', int(x)] if k is None else k
 
 
-def observable(x):
-    """snapshot of the state the public interface shows: every __dict__ entry except orphan series — an ndarray stored under
-    '_' + name whose name is listed neither in `index` nor in `_attributes` (VectorContainer.copy() runs __init__ of the CURRENT
-    class first, so a copy taken after the class NAMES list was extended carries such an entry; no accessor reaches it)"""
-    import numpy as np
-    if _is_container(x):
-        index, attrs = x.__dict__.get('index', []), x.__dict__.get('_attributes', [])
-        items = []
-        for k, v in x.__dict__.items():
-            if k.startswith('_') and isinstance(v, np.ndarray) and k[1:] not in index and k not in attrs:
-                continue
-            if k == 'submodels' and isinstance(v, dict):
-                items.append([k, ['dict', [[snapshot(kk), observable(vv)] for kk, vv in v.items()]]])
-            else:
-                items.append([k, snapshot(v)])
-        return ['inst', type(x).__name__, sorted(items, key=lambda kv: kv[0])]
-    return snapshot(x)
-
-
 def internal_aliases(root, enc):
     """pairs of distinct paths of one root that lead to the same object (aliasing inside one object graph)"""
     import numpy as np
@@ -496,15 +477,13 @@ def _dict_diff(src, new):
     out = []
     for k in sorted(set(a) | set(b)):
         if k not in a:
-            # explained = the known finding's class exactly: a series `_<name>` for a name of the class's CURRENT NAMES that the
-            # original (created before the class list was extended) does not have
-            out.append(['extra', k, bool(k.startswith('_') and k[1:] in getattr(type(new), 'NAMES', []) and k[1:] not in a.get('index', []))])
+            out.append(['extra', k])
         elif k not in b:
             out.append(['missing', k])
         elif snapshot(a[k]) != snapshot(b[k]):
             if k == 'submodels' and isinstance(a[k], dict) and isinstance(b[k], dict) and list(a[k]) == list(b[k]):
                 for key in a[k]:
-                    out += [[d[0], '%s[%s].%s' % (k, key, d[1])] + d[2:] for d in _dict_diff(a[k][key], b[k][key])]
+                    out += [[d[0], '%s[%s].%s' % (k, key, d[1])] for d in _dict_diff(a[k][key], b[k][key])]
             else:
                 out.append(['differs', k])
     return out
@@ -1154,12 +1133,7 @@ def oracle(case, obs):
         if not c['src_unchanged']:
             bad('%s|original-changed' % c['route'], 'taking a copy changed the original')
         if not c['equal']:
-            if c['diff'] and all(d[0] == 'extra' and len(d) > 2 and d[2] for d in c['diff']):
-                bad('%s|state-differs|extra-entry-after-class-NAMES-extended' % c['route'],
-                    'the copy has __dict__ entries the original lacks (%s): copy() runs __init__ of the class as it is NOW, whose NAMES '
-                    'list was extended after the original was created' % [d[1] for d in c['diff']])
-            else:
-                bad('%s|state-differs' % c['route'], 'copy is not equal to the original: %s' % c['diff'])
+            bad('%s|state-differs' % c['route'], 'copy is not equal to the original: %s' % c['diff'])
         # aliasing BETWEEN components of one object: the copy must not alias what the original keeps apart (two variables backed by
         # one array would make a later write to one of them change the other: not observationally equal).  The converse — Trace.names
         # is model.names after a traced solve, one span list handed to two submodels: the entry-by-entry deep copy separates them —
@@ -1499,7 +1473,8 @@ def gen_op(rng, s, fresh_float, alias, tracer):
     if q < 0.518:
         # unusual but legal: one of the object's own lists stored under a second attribute (aliasing between two __dict__ entries:
         # copy() with a memo per entry separates them in the copy, a single-memo deepcopy would keep them together - both allowed)
-        own = ['names', 'check', 'endogenous', 'index', '_attributes'] if s.kind == 'model' else ['index', '_attributes', 'names']
+        # (not `_attributes`: K views that list as a set under its own key only, its order is no observable)
+        own = ['names', 'check', 'endogenous', 'index'] if s.kind == 'model' else ['index', 'names']
         return ['setattr_own', rng.choice(ATTR_NAMES), rng.choice(own)]
     if q < 0.56:
         if s.kind == 'model' and rng.random() < 0.7:
